@@ -26,6 +26,12 @@ Proof.
     assert ((u3 + 1) * P <= (qh + 1) * v2 * P) by nia. nia.
 Qed.
 
+(** two facts used by the correction step: the signed top word after the multiply-subtract is -1 or 0 *)
+Lemma knuth_fix_neg N V X d w1 : 0 < N -> 0 <= V < N -> 0 <= w1 < N -> X = d * N + w1 -> - V <= X < V -> d <= -1 -> d = -1.
+Proof. intros HN HV Hw -> HX Hd. destruct (Z.le_gt_cases d (-2)) as [H|H]; [exfalso|lia]. assert (d * N <= -2 * N) by nia. lia. Qed.
+Lemma knuth_fix_nonneg N V X d w1 : 0 < N -> 0 <= V < N -> 0 <= w1 < N -> X = d * N + w1 -> - V <= X < V -> 0 <= d -> d = 0.
+Proof. intros HN HV Hw -> HX Hd. destruct (Z.le_gt_cases 1 d) as [H|H]; [exfalso|lia]. assert (1 * N <= d * N) by nia. lia. Qed.
+
 (** the `else` arm: when the top word equals the divisor's top word, B - 1 is the quotient word or one too large *)
 Lemma knuth_max B Pn1 top v1 vr win V U :
   2 <= B -> 1 <= Pn1 -> B <= 2 * v1 -> 0 <= vr < Pn1 -> V = v1 * Pn1 + vr -> v1 <= top -> 0 <= win ->
@@ -196,12 +202,16 @@ Proof.
     destruct (add_same_len_spec w w_pos win1 rhs Hww1 Hwr ltac:(lia) _ _ E2) as (Ha & Hww2 & Hlw2 & Hc).
     replace (len win1) with (Z.of_nat n) in Ha by (unfold len; lia). fold V in Ha.
     pose proof (value_lt win2 Hww2) as Hvw2. unfold len in Hvw2. rewrite Hlw2, Hlw1, Hlwin in Hvw2.
-    assert (U - qh * V < 0) as Hneg by nia.
-    assert (top - borrow = -1) as Htb by nia.
-    assert (c = 1) as -> by nia.
-    assert (value win2 = U - (qh - 1) * V) as Hr by nia.
-    assert (0 <= value win2 < V) as Hrange by nia.
-    assert (1 <= qh) by nia.
+    assert (0 <= V) as HV0 by (pose proof (value_lt rhs Hwr); unfold V; lia).
+    assert (- V <= U - qh * V < V) as HX by lia.
+    assert (top - borrow = -1) as Htb
+      by (apply (knuth_fix_neg (B ^ Z.of_nat n) V (U - qh * V) (top - borrow) (value win1)); lia).
+    rewrite Htb in HUq.
+    assert (U - qh * V < 0) as Hneg by lia.
+    assert (c = 1) as -> by (destruct (Z.eq_dec c 0) as [Hc0|Hc0]; [exfalso; rewrite Hc0 in Ha; lia | lia]).
+    assert (value win2 = U - (qh - 1) * V) as Hr by lia.
+    assert (0 <= value win2 < V) as Hrange by lia.
+    assert (1 <= qh) by (destruct (Z.le_gt_cases 1 qh) as [Hq1|Hq1]; [exact Hq1 | exfalso; assert (qh = 0) as Hq0 by lia; rewrite Hq0 in Hneg; lia]).
     split; [lia|]. split; [apply wf_app; split; assumption|].
     split; [rewrite app_length, <- (firstn_skipn k lo), app_length; fold win low; lia|].
     split; [rewrite firstn_app, Hllow, Nat.sub_diag; cbn [firstn]; rewrite app_nil_r; apply firstn_all2; lia|].
@@ -210,10 +220,14 @@ Proof.
     + apply Z.div_unique with (value win2); [left; lia | lia].
     + apply Z.mod_unique with (qh - 1); [left; lia | lia].
   - inversion E; subst q lo'; clear E.
-    assert (0 <= U - qh * V) as Hnn by nia.
-    assert (top - borrow = 0) as Htb by nia.
-    assert (value win1 = U - qh * V) as Hr by nia.
-    assert (0 <= value win1 < V) as Hrange by nia.
+    assert (0 <= V) as HV0 by (pose proof (value_lt rhs Hwr); unfold V; lia).
+    assert (- V <= U - qh * V < V) as HX by lia.
+    assert (top - borrow = 0) as Htb
+      by (apply (knuth_fix_nonneg (B ^ Z.of_nat n) V (U - qh * V) (top - borrow) (value win1)); lia).
+    rewrite Htb in HUq.
+    assert (0 <= U - qh * V) as Hnn by lia.
+    assert (value win1 = U - qh * V) as Hr by lia.
+    assert (0 <= value win1 < V) as Hrange by lia.
     split; [lia|]. split; [apply wf_app; split; assumption|].
     split; [rewrite app_length, <- (firstn_skipn k lo), app_length; fold win low; lia|].
     split; [rewrite firstn_app, Hllow, Nat.sub_diag; cbn [firstn]; rewrite app_nil_r; apply firstn_all2; lia|].
